@@ -23,7 +23,7 @@ ASSUMPTIONS = [
 COMPONENTS = {"real": ["TradingEnv.step (delay deque)", "Transmitter", "PortfolioSpace.null_action/make_rebalancing_request", "Broker.rebalance", "Exchange"],
               "harness": ["delivery model", "plain-list delay queue model"], "stub": []}
 PROBE_FLOORS = {"second_episode_on_same_env": 169, "delay_ge_2": 241, "discrete_with_delay": 100, "quote_exactly_on_latency_bound": 65,
-                "quote_1us_after_latency_bound": 43, "episode_shorter_than_delay": 20, "trade_priced": 2000, "late_event_with_latency": 70, "thinly_quoted_contracts": 120, "environment_construction_refused": 40}
+                "quote_1us_after_latency_bound": 43, "episode_shorter_than_delay": 20, "trade_priced": 2000, "late_event_with_latency": 70, "thinly_quoted_contracts": 120, "environment_construction_refused": 40, "episode_on_a_second_environment_with_another_latency": 20}
 
 PROFILE = {
     "n_min": 2, "n_max": 12, "n_long": 40, "p_long": 0.1, "c_min": 1, "c_max": 3, "p_bar": 1.0, "extras_max": 10,
@@ -106,9 +106,16 @@ def execute(scenario):
     violations, probes, violate, probe = epicheck.mk_violation_sink()
     h = sim.handles[0]
     delay = env_spec.get("delay", 0)
+    cur_gen = 0
     for ei, ep in enumerate(h.episodes):
         if ei > 0:
             probe("second_episode_on_same_env")
+        if ep.get("gen", 0) != cur_gen:
+            # this episode runs on a later environment object of the same transmitter: it is judged by its own latency
+            cur_gen = ep.get("gen", 0)
+            env_spec = h.gen_specs[cur_gen]
+            d = Delivery(env_spec, gen_epi.auto_disc(env_spec))
+            probe("episode_on_a_second_environment_with_another_latency")
         if ep["failed"]:
             violate("unexpected_exception", "reset raised {}: {}".format(ep["reset"]["exc"], ep["reset"].get("msg")), exc=ep["reset"]["exc"], where="reset")
             break
@@ -269,3 +276,18 @@ def in_domain(scenario):
 
 
 generate = gen_epi.with_backtest_driver(generate, 0.2)
+_generate_bt = generate
+
+
+def generate(rng, i):
+    sc = _generate_bt(rng, i)
+    if i % 5 == 3 and sc.get("kind") == "epi" and sc.get("driver") != "backtest":
+        # a latency sweep over the same market data: a new TradingEnv object is built on the same transmitter, with
+        # another latency, before one of the later episodes (spot contracts only: the environment adds no events of
+        # its own).  Laid out without consuming draws of the generator's stream
+        env = sc["envs"][0]
+        resets = [j for j, op in enumerate(sc["script"]) if op["op"] == "reset"]
+        if env["latency_us"] > 0 and len(resets) >= 2 and not gen_epi.auto_disc(env) and not any(op["op"] in ("late_add", "bad_env") for op in sc["script"]):
+            new_lat = 0 if (i // 5) % 2 == 0 else env["latency_us"] // 2
+            sc["script"].insert(resets[1 + (i // 10) % (len(resets) - 1)], {"op": "new_env", "env": 0, "add": [], "latency_us": new_lat})
+    return sc
